@@ -68,6 +68,12 @@ RhoOf(el, o) == 1 + ZerosFrom(el, o + 2)
 
 MaxRho(o) == 8 * (31 - o) + 1                    \* all bits after the index byte are 0
 
+(* Register values above MaxRho(0) = 249 cannot be produced by adding elements; a register   *)
+(* state is "reachable by adds" when no register exceeds it.  Export followed by import must *)
+(* be the identity on (at least) these states, so their hex form must be importable; whether *)
+(* import accepts the values 250..255 is left free (if it does, estimation must return).     *)
+AddReachable(r) == \A i \in Idx : r[i] <= MaxRho(0)
+
 Pow2(n) == IF n = 0 THEN 1 ELSE IF n = 1 THEN 2 ELSE IF n = 2 THEN 4 ELSE IF n = 3 THEN 8
            ELSE IF n = 4 THEN 16 ELSE IF n = 5 THEN 32 ELSE IF n = 6 THEN 64 ELSE 128
 
